@@ -359,6 +359,9 @@ func Files() []FileSpec {
 			rm.field("r5", 5, Req, kindByName("enum"), fopt{})
 			rm.field("r6", 6, Req, kindByName("double"), fopt{})
 			rm.field("o7", 7, Opt, kindByName("int32"), fopt{})
+			rmo := b.msg("ReqMsgOnly") // the ONLY required field is message-typed
+			rmo.field("c", 1, Req, kindByName("message"), fopt{typeName: "Child"})
+			rmo.field("name", 2, Opt, kindByName("string"), fopt{})
 			b.msg("Empty")
 		}})
 	out = append(out, FileSpec{Name: "p2ext", Syntax: "proto2", Cells: "proto2 extensions nested in a message of the file: optional varint/zigzag/bool/string/bytes/message kinds and repeated",
